@@ -115,6 +115,8 @@ def run(ctx):
             if rnd.random() < 0.3:
                 # the transport accepts the pong in pieces (C07_trace holds for every short-write pattern)
                 cfg["acc"] = [rnd.choice([1, 2, 3, 7, 50]) for _ in range(rnd.randint(1, 4))]
+                if rnd.random() < 0.5:
+                    cfg["dispatcher"] = rnd.choice(["plain", "ssl"])       # the object as WebSocketApp equips it
             sessions.append((cfg, events, ops))
             meta.append((frames, api))
     res = rx.run_sessions(ctx, "session:ping-pong", sessions)
